@@ -6,7 +6,7 @@ W=/tmp/wt/confirm
 [ -d $W ] || git -C /repo worktree add -q --detach $W HEAD
 cd $W && git checkout -q --detach $(git -C /repo rev-parse HEAD) && git checkout -q -- . && git clean -fdq -e target
 git apply "$patch" || { echo "PATCH DOES NOT APPLY"; exit 2; }
-git apply "$demo" || { echo "DEMO DOES NOT APPLY"; exit 2; }
+git apply -C1 "$demo" || { echo "DEMO DOES NOT APPLY"; exit 2; }
 echo "--- suite with patch (lib tests)"
 cargo test --offline --lib 2>&1 | grep -E "^test result|FAILED|failed" | grep -v seeded_demo | head -5
 echo "--- demo with patch (expect FAIL)"
